@@ -97,7 +97,9 @@ IdExpr(e, r) ==
 (* The curated data set: every length / count threshold used by the cases  *)
 (* (9,10,11 - 1,2,4,5,6) has a record below, on and above it; records with *)
 (* no attribute at all, with and without definition, keys present in some  *)
-(* records only, a value that is a prefix of another ("A"/"AB", 5/50).     *)
+(* records only, a value that is a prefix of another ("A"/"AB", 5/50),     *)
+(* pairs of values (well, plate) that differ but read the same once glued *)
+(* with a separator ("A_1","2" / "A","1_2"; "A-1","2" / "A","1-2").        *)
 Rec(id, seq, qual, attrs) == [id |-> id, seq |-> seq, qual |-> qual, attrs |-> attrs]
 
 Data == <<
@@ -108,7 +110,7 @@ Data == <<
   Rec("sB_03", "acgta",                "JIHGF",
       NoAttrs),
   Rec("sB_04", "aaaaaaaaaaaa",         "AAAAAABBBBBB",
-      [count |-> "i:5", definition |-> "s:def four"]),
+      [count |-> "i:5", definition |-> "s:def four", well |-> "s:A_1", plate |-> "s:2"]),
   Rec("sB_05", "ggcatgcat",            "CDECDECDE",
       [count |-> "i:4", sample |-> "s:AB", n |-> "i:7"]),
   Rec("sC_06", "ttgacgtacca",          "ABCDEFGHIJA",
@@ -116,13 +118,13 @@ Data == <<
   Rec("sC_07", "a",                    "F",
       [sample |-> "s:B"]),
   Rec("sC_08", "acgtacgtacgtacgtacgt", "ABCDEFGHIJJIHGFEDCBA",
-      [count |-> "i:2", n |-> "i:15", tag |-> "s:xy"]),
+      [count |-> "i:2", n |-> "i:15", tag |-> "s:xy", well |-> "s:A", plate |-> "s:1_2"]),
   Rec("sA_09", "ccccccccgg",           "HHHHHHHHII",
       [count |-> "i:5", sample |-> "s:A", n |-> "i:5", definition |-> "s:Record nine"]),
   Rec("sB_10", "gattacagatt",          "ABABABABABA",
-      [count |-> "i:1", tag |-> "s:y"]),
+      [count |-> "i:1", tag |-> "s:y", well |-> "s:A-1", plate |-> "s:2"]),
   Rec("sA_11", "acgacgacg",            "GGGFFFEEE",
-      [sample |-> "s:C", count |-> "i:10"]),
+      [sample |-> "s:C", count |-> "i:10", well |-> "s:A", plate |-> "s:1-2"]),
   Rec("sC_12", "tgcatgcatg",           "ABCDEFGHIJ",
       [count |-> "i:5", sample |-> "s:B", n |-> "i:50", definition |-> "s:last"]) >>
 
